@@ -4,18 +4,27 @@ from . import common as C
 
 PID = 'C05'
 MANIFEST = dict(
-    text='Theorems C05_* (lean/IprProps/C05.lean) prove over EVERY history of factory calls, member additions and link settings of '
+    text='Theorems C05_* (lean/IprProps/C05.lean) prove over EVERY history of factory calls, member additions, link settings and look-ups of '
          'the store model that what is observable through a node allocated earlier only grows (equal on operands / type / parts, '
          'links gained, member sequences extended at their end), that a step changes no observation outside the records it appends '
          'to or links, that every generative constructor (the make_ family except literals and template-ids, declarations, '
          'parameters, enumerators, bases, handlers) returns an id never allocated before, that a unified request returns a node '
-         'built from exactly its normalised key (so two requests alias only on equal keys, never with a generative node), and that no '
-         'answer dangles. The model is tied to impl::Lexicon by long random histories on the real library in which the universal '
-         'observer re-reads every node ever seen after every step (with growth bursts into one farm / deque / tree / string pool) and '
-         'the answers and the set of changed nodes are compared with the model. PARTIAL: relocation of storage is runtime behaviour '
-         'the model cannot exhibit; it is covered by re-fetching every member at its index, by address-based naming and by ASan.',
+         'built from exactly its normalised key (so two requests alias only on equal keys, never with a generative node; linkages, calling '
+         'conventions and transfers included: get_transfer normalises to the transfer of the convention / linkage alone, a function or '
+         'as-type requested with a transfer equal to the natural one is the plain node), that no answer dangles, and that what '
+         'scope[name][type] answered once stays the answer whatever is appended afterwards (a parameter list / enumeration answers the FIRST '
+         'member of a name). The model is tied to impl::Lexicon by long random histories on the real library in which the universal '
+         'observer re-reads every node ever seen after every step (with growth bursts into one farm / deque / tree / string pool), every '
+         'linkage / convention / transfer and every look-up answered so far is re-asked, and the answers and the set of changed nodes are '
+         'compared with the model. Words reach the library as const char8_t* into a reused token buffer, as views into heap buffers and as '
+         'temporaries, all overwritten / freed when the call is over; dead stack frames are overwritten after every call and stay poisoned '
+         '(ASan detect_stack_use_after_return). PARTIAL: relocation of storage is runtime behaviour '
+         'the model cannot exhibit; it is covered by re-fetching every member at its index, by address-based naming and by ASan. Linkages, '
+         'conventions and transfers are not Nodes: the universal observer shows them by value inside the types that carry them; their identity '
+         '(same object as before, an object the Lexicon handed out) is checked by the probe itself.',
     note='Lean kernel; axioms propext/Classical.choice/Quot.sound; hand-written model tied by correspondence on generated histories; '
-         'harness c05probe.cxx + observe.hxx, ASan/UBSan, g++; std::forward_list/deque/vector/map represented by their specification.',
+         'harness c05probe.cxx + observe.hxx, ASan (detect_stack_use_after_return=1)/UBSan, g++; std::forward_list/deque/vector/map represented '
+         'by their specification; look-ups in base-class lists and handler regions are re-asked by the probe but not modelled.',
     technique='Lean 4 theorems (invariants over all histories) + differential correspondence with address re-checks under ASan',
     ref='§4 C05')
 
@@ -23,8 +32,15 @@ GROWTH_FIELDS = ('type', 'region', 'bindings', 'scope', 'elements', 'members', '
                  'lexical_region', 'parameters', 'exception', 'operand')
 NEVER_FRESH = ('make_literal', 'make_literal_s', 'make_template_id')           # the two make_ documented to unify
 FAMILY = {'get_identifier_s': 'get_identifier', 'get_label': 'get_symbol', 'get_this': 'get_symbol', 'get_literal': 'make_literal',
-          'make_literal_s': 'make_literal', 'get_template_id': 'make_template_id'}
+          'make_literal_s': 'make_literal', 'get_template_id': 'make_template_id',
+          'get_transfer_from_linkage': 'get_transfer', 'get_transfer_from_convention': 'get_transfer',     # get_transfer normalises
+          'get_function_x': 'get_function', 'get_as_type_x': 'get_as_type'}     # a transfer equal to the natural one: the plain node
+NOT_INJECTIVE = ('get_qualified', 'get_function_x', 'get_as_type_x')     # different operands as written may be one request
 MEMBER_OPS = ('decl', 'param', 'mparam', 'enumerator', 'base', 'handler')
+# dead stack frames stay poisoned: a reference the library keeps to a by-value parameter / a temporary is reported when read
+ASAN = 'detect_leaks=0:abort_on_error=0:allocator_may_return_null=1:detect_stack_use_after_return=1'
+LINKAGE_WORDS = ['C', 'C++', 'Java', 'Java', 'Fortran', 'Ada', 'Rust']
+CONVENTION_WORDS = ['', '', '__cdecl', '__fastcall', '__stdcall', '__vectorcall', '__thiscall']
 
 SUPERS = {
     'String': [], 'Identifier': ['Name'], 'Name': [],
@@ -114,6 +130,12 @@ class Gen:
         self.words = 0
         self.counts = {}
         self.fac_by_result = {}
+        self.repeated = set()               # factories whose call was already repeated at once
+        self.anon = None                    # line index of the identifier "" (unnamed parameters all share it)
+        self.hmembers = {}                  # canonical homogeneous scope -> [(name ref, type ref)]
+        self.hroute = {}                    # canonical homogeneous scope -> (handle of the container, its sort)
+        self.scope_route = {}               # canonical general scope -> handle through which declarations were entered
+        self.scope_handle = {}              # canonical scope -> line index of a handle of the Scope node itself
 
     def emit(self, line, sort=None, canon=None):
         i = len(self.ops)
@@ -152,6 +174,8 @@ class Gen:
             self.emit('k ' + k, 'Expr')
         for _ in range(6):
             self.new_ident()
+        self.anon = self.emit('mk get_identifier ' + hexs(''), 'Identifier')      # the name of every unnamed parameter
+        self.idents.append((self.anon, ''))
         for _ in range(3):
             self.emit('mk get_string ' + hexs(self.word()), 'String')
         self.emit('mk make_phantom', 'Pushable')
@@ -164,6 +188,20 @@ class Gen:
         p = self.pick('Product')
         self.emit('mk get_function r%d r%d' % (p, self.pick('Type')), 'Function')
         self.emit('mk get_forall r%d r%d' % (p, self.pick('Type')), 'Forall')
+        # an extended language linkage, a calling convention, the three kinds of transfer, and types that carry them
+        java = self.emit('mk get_linkage ' + hexs('Java'), 'Linkage')
+        cxx = self.emit('mk get_linkage ' + hexs('C++'), 'Linkage')
+        fast = self.emit('mk get_calling_convention ' + hexs('__fastcall'), 'Convention')
+        nat = self.emit('mk get_calling_convention ' + hexs(''), 'Convention')
+        xs = [self.emit('mk get_transfer_from_linkage r%d' % java, 'Transfer'),
+              self.emit('mk get_transfer_from_convention r%d' % fast, 'Transfer'),
+              self.emit('mk get_transfer r%d r%d' % (java, fast), 'Transfer'),
+              self.emit('mk get_transfer r%d r%d' % (cxx, fast), 'Transfer'),       # = the transfer of the convention alone
+              self.emit('mk get_transfer r%d r%d' % (java, nat), 'Transfer'),       # = the transfer of the linkage alone
+              self.emit('mk get_transfer r%d r%d' % (cxx, nat), 'Transfer')]        # equals the natural transfer
+        for x in xs:
+            self.emit('mk get_function_x r%d r%d r%d' % (p, self.pick('Type'), x), 'Function')
+        self.emit('mk get_as_type_x r%d r%d' % (self.pick('Expr'), xs[0]), 'Type')
 
     def new_ident(self):
         w = self.word()
@@ -185,6 +223,10 @@ class Gen:
         rng = self.rng
         if letter == 'w':
             return hexs(self.word())
+        if letter == 'lw':
+            return hexs(rng.choice(LINKAGE_WORDS) if rng.random() < 0.8 else self.word())
+        if letter == 'cw':
+            return hexs(rng.choice(CONVENTION_WORDS) if rng.random() < 0.8 else self.word())
         if letter == 'q':
             return '#%d' % rng.randint(1, 7)
         if letter == 'W':
@@ -232,7 +274,10 @@ class Gen:
         r = self.emit(line, sort)
         # the very same call again, at once: a unified factory answers the same node, a generative one a node never returned before
         # (nothing may be remembered from the previous call)
-        if r is not None and rng.random() < 0.2 and name not in ('make_union', 'make_namespace', 'make_class', 'make_enum', 'make_closure'):
+        # -- done for EVERY factory the first time it is called, and for one call in six afterwards
+        if r is not None and name not in ('make_union', 'make_namespace', 'make_class', 'make_enum', 'make_closure') \
+                and (name not in self.repeated or rng.random() < 0.16):
+            self.repeated.add(name)
             self.emit(line, sort)
         return r
 
@@ -283,8 +328,33 @@ class Gen:
             if t is None:
                 return None
         used[w] = (kind, types + [t])
+        self.scope_route.setdefault(scope, c)
         sort = {'var': 'Var', 'field': 'Field'}.get(kind, 'Decl')
         return self.emit('decl r%d %s r%d r%d' % (c, kind, n, t), sort)
+
+    def hscope_of(self, x):
+        """Canonical identity of the homogeneous scope behind a parameter list / mapping / enumeration handle."""
+        sort, c = self.sort.get(x), self.canon[x]
+        if sort in ('Mapping', 'Lambda', 'Requires'):
+            c = ('p', c, 'parameters')
+        return ('p', ('p', c, 'region'), 'bindings')
+
+    def member_name(self, scope):
+        """Names repeat inside one parameter list / enumeration: unnamed members all share the identifier "", and a name
+        already used there is used again."""
+        r = self.rng.random()
+        used = self.hmembers.get(scope, [])
+        if r < 0.3:
+            return self.anon
+        if r < 0.5 and used:
+            return self.rng.choice(used)[0]
+        return self.rng.choice(self.idents)[0]
+
+    def added(self, scope, x, n, t):
+        self.hmembers.setdefault(scope, []).append((n, t))
+        self.hroute[scope] = x
+        if self.rng.random() < 0.3:
+            self.lookup_hom(scope, n, t if self.rng.random() < 0.7 else self.rng.choice(self.hmembers[scope])[1])
 
     def op_member(self):
         rng = self.rng
@@ -292,13 +362,31 @@ class Gen:
         n = rng.choice(self.idents)[0]
         if k == 'param':
             x = self.pick('Plist')
-            return x is not None and self.emit('param r%d r%d r%d' % (x, n, self.pick('Type')), 'Param')
+            if x is None:
+                return None
+            sc = self.hscope_of(x)
+            n, t = self.member_name(sc), self.pick('Type')
+            i = self.emit('param r%d r%d r%d' % (x, n, t), 'Param')
+            self.added(sc, x, n, t)
+            return i
         if k == 'mparam':
             x = self.pick('Mapping')
-            return x is not None and self.emit('mparam r%d r%d r%d' % (x, n, self.pick('Type')), 'Param')
+            if x is None or self.sort.get(x) != 'Mapping':
+                return None
+            sc = self.hscope_of(x)
+            n, t = self.member_name(sc), self.pick('Type')
+            i = self.emit('mparam r%d r%d r%d' % (x, n, t), 'Param')
+            self.added(sc, x, n, t)
+            return i
         if k == 'enumerator':
             x = self.pick('Enum')
-            return x is not None and self.emit('enumerator r%d r%d' % (x, n), 'Enumerator')
+            if x is None:
+                return None
+            sc = self.hscope_of(x)
+            n = self.member_name(sc)
+            i = self.emit('enumerator r%d r%d' % (x, n), 'Enumerator')
+            self.added(sc, x, n, x)                          # the type of an enumerator is its enumeration
+            return i
         if k == 'base':
             x, t = self.pick('Class'), self.pick('Type')
             if x is None:
@@ -314,6 +402,77 @@ class Gen:
         x = self.pick('Block') if rng.random() < 0.7 else self.pick('HBlock')
         e = self.pick('Expr')
         return x is not None and e is not None and self.emit('stmt r%d r%d' % (x, e))
+
+    # -- look-ups: scope[name][type]
+    def part_handle(self, x, acc):
+        """Handle of part `acc` of handle x (one already emitted, else a new `part` op)."""
+        cx = self.canon[x]
+        canon = ('p', cx, acc) if acc != 'scope' else ('p', ('p', cx, 'region'), 'bindings')
+        for i, c in self.canon.items():
+            if c == canon and i in self.sort:
+                return i
+        return self.emit('part r%d %s' % (x, acc), PARTS[self.sort[x]][acc], canon)
+
+    def hscope_handle(self, scope):
+        if scope not in self.scope_handle:
+            x = self.hroute[scope]
+            sort = self.sort[x]
+            if sort == 'Enum':
+                h = self.part_handle(x, 'scope')
+            else:
+                if sort in ('Mapping', 'Lambda', 'Requires'):
+                    x = self.part_handle(x, 'parameters')
+                h = self.part_handle(self.part_handle(x, 'region'), 'bindings')
+            self.scope_handle[scope] = h
+        return self.scope_handle[scope]
+
+    def lookup_hom(self, scope, n, t):
+        return self.emit('lookup r%d r%d r%d' % (self.hscope_handle(scope), n, t))
+
+    def op_lookup(self):
+        rng = self.rng
+        if rng.random() < 0.6 and self.hmembers:
+            scope = rng.choice(sorted(self.hmembers, key=repr))
+            mem = self.hmembers[scope]
+            if rng.random() < 0.75:
+                n, t = rng.choice(mem)[0], rng.choice(mem)[1]
+            else:
+                n, t = rng.choice(self.idents)[0], self.pick('Type')
+            return self.lookup_hom(scope, n, t)
+        routes = [sc for sc in sorted(self.scope_route, key=repr) if self.scope_names.get(sc)]
+        if not routes:
+            return None
+        scope = rng.choice(routes)
+        if scope not in self.scope_handle:
+            c = self.scope_route[scope]
+            sort = self.sort[c]
+            self.scope_handle[scope] = c if sort == 'DScope' else self.part_handle(c, 'bindings' if sort == 'HRegion' else 'scope')
+        used = self.scope_names[scope]
+        if rng.random() < 0.8:
+            w = rng.choice(sorted(used))
+            n = next(i for i, s in self.idents if s == w)
+            t = rng.choice(used[w][1]) if rng.random() < 0.7 else self.pick('Type')
+        else:
+            n, t = rng.choice(self.idents)[0], self.pick('Type')
+        return self.emit('lookup r%d r%d r%d' % (self.scope_handle[scope], n, t))
+
+    # -- linkages, calling conventions, transfers and the types that carry them
+    def op_transfer(self):
+        rng = self.rng
+        k = rng.randrange(8)
+        if k == 0 or not self.pool.get('Linkage'):
+            return self.emit('mk get_linkage ' + self.operand('lw'), 'Linkage')
+        if k == 1 or not self.pool.get('Convention'):
+            return self.emit('mk get_calling_convention ' + self.operand('cw'), 'Convention')
+        if k == 2:
+            return self.emit('mk get_transfer_from_linkage r%d' % self.pick('Linkage'), 'Transfer')
+        if k == 3:
+            return self.emit('mk get_transfer_from_convention r%d' % self.pick('Convention'), 'Transfer')
+        if k == 4 or not self.pool.get('Transfer'):
+            return self.emit('mk get_transfer r%d r%d' % (self.pick('Linkage'), self.pick('Convention')), 'Transfer')
+        if k < 7:
+            return self.emit('mk get_function_x r%d r%d r%d' % (self.pick('Product'), self.pick('Type'), self.pick('Transfer')), 'Function')
+        return self.emit('mk get_as_type_x r%d r%d' % (self.pick('Expr'), self.pick('Transfer')), 'Type')
 
     def op_set(self):
         rng = self.rng
@@ -393,20 +552,24 @@ class Gen:
         while len(self.ops) < nops:
             r = rng.random()
             before = len(self.ops)
-            if r < 0.42:
+            if r < 0.40:
                 self.op_factory()
-            elif r < 0.50:
+            elif r < 0.47:
                 self.op_part()
-            elif r < 0.66:
+            elif r < 0.62:
                 self.op_decl()
-            elif r < 0.80:
+            elif r < 0.76:
                 self.op_member()
-            elif r < 0.87:
+            elif r < 0.82:
                 self.op_set()
-            elif r < 0.93:
+            elif r < 0.87:
                 self.op_warehouse()
-            elif r < 0.97:
+            elif r < 0.90:
                 self.op_alias_probe()
+            elif r < 0.945:
+                self.op_lookup()
+            elif r < 0.985:
+                self.op_transfer()
             else:
                 if rng.random() < 0.3:
                     self.emit('unit', 'HRegion')
@@ -429,6 +592,8 @@ class Gen:
             self.op_factory()
             self.op_decl()
             self.op_member()
+            self.op_lookup()
+            self.op_transfer()
         self.emit('obs_all')
 
 
@@ -498,6 +663,7 @@ class Oracle:
         self.digests = {}
         self.changed_since_dump = set()
         self.result_t = {}           # op index -> t-name
+        self.lookups = {}            # (scope t-name, name t-name, type t-name) -> last answer
         self.stats = dict(rounds=0, observations=0, changes=0, grown=0, links=0, generative=0, unified_old=0, unified_new=0, max_objects=0)
 
     def reach(self, start, depth):
@@ -524,11 +690,15 @@ class Oracle:
         res = next((l for l in lines if l.startswith('R ')), None)
         asserts = [l for l in lines if l.startswith('@')]
         for a in asserts:
-            if a.startswith(('@addr=', '@stable=', '@burst=')) and not a.endswith('=1'):
+            if a.startswith(('@addr=', '@stable=', '@burst=', '@xfer=', '@lookup=')) and not a.endswith('=1'):
                 which = 'a member is no longer found at its address / index' if a.startswith('@addr') else \
                     'an identifier created during a growth burst no longer spells what it was made from' if a.startswith('@burst') else \
+                    'a linkage / calling convention / transfer handed out earlier is not what it was, or refers to an object the Lexicon never handed out' \
+                    if a.startswith('@xfer') else \
+                    'what scope[name][type] answered earlier is no longer the answer although members were only appended' if a.startswith('@lookup') else \
                     'an observation changed other than by growth at the end / a link being set'
-                detail = [l for l in lines if l.startswith('#D ')][:4]
+                tag = {'@xfer=': '#D xfer:', '@lookup=': '#D lookup:', '@burst=': '#D burst:'}.get(a[:a.index('=') + 1], '#D ')
+                detail = ([l for l in lines if l.startswith(tag)] or [l for l in lines if l.startswith('#D ')])[:4]
                 return '%s after `%s`: %s %s' % (a, op, which, ' ; '.join(d[:200] for d in detail))
         for l in lines:
             if l.startswith('#T '):
@@ -551,6 +721,18 @@ class Oracle:
         if res is None:
             return 'no answer for `%s`' % op
         ans = res[2:]
+        if w[0] == 'lookup' and ans != 'bad':
+            # the same scope asked for the same name and type again: a declaration once answered stays the answer
+            key = tuple(self.result_t.get(int(a[1:]), a) for a in w[1:4])
+            self.stats['lookups'] = self.stats.get('lookups', 0) + 1
+            self.stats['lookups_answered'] = self.stats.get('lookups_answered', 0) + (1 if ans.startswith('t') else 0)
+            prev = self.lookups.get(key)
+            if prev is not None and prev.startswith('t') and ans != prev:
+                return '`%s` (scope %s, name %s, type %s) answered the declaration %s earlier and answers `%s` now' % ((op,) + key + (prev, ans))
+            if ans.startswith('t') and ans not in self.owner:
+                return '`%s` answered a node that no operation had returned before' % op
+            self.lookups[key] = ans
+            return None
         if ans.startswith('t'):
             self.result_t[i] = ans
             is_new = ans not in self.owner
@@ -569,7 +751,7 @@ class Oracle:
                     return '`%s` returned the node %s, which was created by %s `%s`' % (
                         op, ans, 'the generative' if prev[1] else 'the different factory', prev[0])
                 # same factory, operands comparable as written (node names / numbers): different operands => different nodes
-                if w[1] not in ('get_qualified',) and all(a.startswith(('r', '#')) for a in w[2:]):
+                if w[1] not in NOT_INJECTIVE and all(a.startswith(('r', '#')) for a in w[2:]):
                     key = (w[1],) + tuple(self.result_t.get(int(a[1:]), a) if a.startswith('r') else a for a in w[2:])
                     tab = self.keys.setdefault(w[1], {})
                     other = tab.get(ans)
@@ -679,15 +861,15 @@ def compared(out):
 
 # --------------------------------------------------------------------------------------------------------------- run
 
-def run_both(probe, ops, timeout=3000):
+def run_both(probe, ops, timeout=900):
     text = '\n'.join(ops) + '\n'
-    rc_i, out_i, err_i = C.run_exe(probe, [], text, timeout=timeout)
+    rc_i, out_i, err_i = C.run_exe(probe, [], text, timeout=timeout, env={'ASAN_OPTIONS': ASAN})
     return rc_i, out_i, err_i, text
 
 
-def verdict(probe, ops, with_model=True):
+def verdict(probe, ops, with_model=True, timeout=900):
     """('crash'|'statement'|'correspondence'|None, op index, message)"""
-    rc, out_i, err_i, text = run_both(probe, ops)
+    rc, out_i, err_i, text = run_both(probe, ops, timeout)
     per, _ = split_ops(out_i)
     bad, orc = check_trace(ops, out_i)
     if bad:
@@ -695,7 +877,8 @@ def verdict(probe, ops, with_model=True):
     if rc != 0 or len(per) < len(ops):
         i = min(len(per), len(ops) - 1)
         tail = '\n'.join(l for l in err_i.splitlines() if l.strip())[-2500:]
-        return 'crash', i, 'c05probe stopped (exit %s) in op %d `%s` of %d\n%s' % (rc, i, ops[i], len(ops), tail), orc
+        how = 'did not finish within %d s (a hang)' % timeout if rc == C.TIMEOUT else 'stopped (exit %s)' % rc
+        return 'crash', i, 'c05probe %s in op %d `%s` of %d\n%s' % (how, i, ops[i], len(ops), tail), orc
     if with_model:
         rc_m, out_m, err_m = C.run_model('c05', text)
         ci, cm = compared(out_i), compared(out_m)
@@ -708,7 +891,7 @@ def verdict(probe, ops, with_model=True):
     return None, None, None, orc
 
 
-def shrink(probe, ops, kind, at):
+def shrink(probe, ops, kind, at, timeout=900):
     """Keep line numbering (operands are line references): drop the tail, then replace ops by `nop` while the verdict stays."""
     ops = list(ops[:at + 1])
     if not ops[-1].startswith('obs'):
@@ -720,7 +903,7 @@ def shrink(probe, ops, kind, at):
         return [o if (i in ks or o.startswith('obs')) else 'nop' for i, o in enumerate(ops)]
 
     def fails(keep):
-        k, _, _, _ = verdict(probe, build(keep), with_model=(kind == 'correspondence'))
+        k, _, _, _ = verdict(probe, build(keep), with_model=(kind == 'correspondence'), timeout=timeout)
         return k == kind
     if len(ops) > 4000 or not fails(base):
         return ops
@@ -739,11 +922,15 @@ def run(tier):
     g = generate(tier, rng, table)
     ops = g.ops
     t0 = time.time()
-    kind, at, msg, orc = verdict(probe, ops)
-    C.log('[c05] %d ops, %d rounds, %d observations in %.1fs' % (len(ops), orc.stats['rounds'], orc.stats['observations'], time.time() - t0))
+    limit = 300 if tier == 'quick' else 3000
+    kind, at, msg, orc = verdict(probe, ops, timeout=limit)
+    took = time.time() - t0
+    C.log('[c05] %d ops, %d rounds, %d observations in %.1fs' % (len(ops), orc.stats['rounds'], orc.stats['observations'], took))
     if kind:
-        small = shrink(probe, ops, kind, at)
-        k2, at2, msg2, _ = verdict(probe, small, with_model=(kind == 'correspondence'))
+        hang = kind == 'crash' and took >= limit
+        # a hang is reported with the op prefix as it is (every shrinking attempt would have to wait for the time limit again)
+        small = shrink(probe, ops, kind, at, timeout=max(120, int(4 * took))) if not hang else list(ops[:at + 1])
+        k2, at2, msg2, _ = verdict(probe, small, with_model=(kind == 'correspondence'), timeout=max(120, int(4 * took))) if not hang else (None, None, None, None)
         if k2 == kind:
             msg = msg2
         else:
@@ -781,12 +968,20 @@ def run(tier):
         'forwards to type().name(), a derived accessor the model does not mirror) and never re-set the resolution of an id-expression '
         'built from a declaration (set at construction)',
     ]
+    res.cov['lookups'] = sum(1 for o in ops if o.startswith('lookup'))
+    res.cov['members_named_again_or_unnamed'] = sum(len(v) - len({n for n, _ in v}) for v in g.hmembers.values())
+    res.cov['value_factory_calls'] = {f: facs.get(f, 0) for f in ('get_linkage', 'get_calling_convention', 'get_transfer_from_linkage',
+                                                                 'get_transfer_from_convention', 'get_transfer', 'get_function_x', 'get_as_type_x')}
     return res.finish(info, rule='one random well-sorted history per run over %d factories of impl::Lexicon (unified get_*, generative '
-                      'make_*, composites with regions/scopes/parameter lists), member additions (declarations and redeclarations into '
-                      'regions/scopes/classes, parameters, enumerators, bases, handlers, expression lists, block statements), warehouse '
+                      'make_*, composites with regions/scopes/parameter lists; extended linkages, calling conventions, the three kinds of transfer '
+                      'and function / as-types carrying them), member additions (declarations and redeclarations into '
+                      'regions/scopes/classes, parameters -- unnamed and repeated names --, enumerators, bases, handlers, expression lists, block '
+                      'statements), look-ups scope[name][type] (general scopes, parameter lists, enumerations), warehouse '
                       'reuse/extension/destruction, link settings, alias probes; the universal observer re-reads EVERY object ever seen '
-                      '(returned or reachable) right after the op that created it and again after every op up to op %s and every 40-50 ops thereafter, then growth bursts into one '
-                      'farm/tree/pool/deque/scope/list/vector with sentinels observed before and after; a trace is the whole history'
+                      '(returned or reachable) right after the op that created it and again after every op up to op %s and every 40-50 ops thereafter '
+                      '(then also every linkage / convention / transfer and every look-up answered so far), then growth bursts into one '
+                      'farm/tree/pool/deque/scope/list/vector with sentinels observed before and after; words are handed over as const char8_t* into a '
+                      'reused buffer / heap views / temporaries; a trace is the whole history'
                       % (len(table), '1500' if tier == 'quick' else '5000'))
 
 
